@@ -70,9 +70,21 @@ def job(cfg):
         # n_batch alternates with the configuration: a batch count > 1 must change nothing
         nbatch = 2 if (M % 2 == 0 and (cfg["nchol"] + cfg["k"]) % 2 == 1) else 1
         prop = propagation.propagator_unrestricted(dt=dt, n_walkers=M, n_exp_terms=nexp, n_batch=nbatch)
-        hd = {"h0": S["h0"], "h1": jnp.asarray(S["h1"]), "chol": jnp.asarray(S["chol"].reshape(nchol, n * n)), "ene0": ene0}
+        # Intermediates are rebuilt on the dictionary returned by the previous build (first on a decoy Hamiltonian with
+        # other Cholesky vectors, another time step and another ene0), the way the drivers and AD samplers re-prepare
+        # a ham_data: anything cached instead of rebuilt goes stale and shows up in the oracles below.
+        if "_carry" not in S:
+            dh0, dh1, dchol = al.small_ham(n, nchol, cfg["seed"] + 23, spin_dependent=True, scale=0.7)
+            dprop = propagation.propagator_unrestricted(dt=0.033, n_walkers=M, n_exp_terms=nexp, n_batch=nbatch)
+            d = {"h0": dh0, "h1": jnp.asarray(dh1), "chol": jnp.asarray(dchol.reshape(nchol, n * n)), "ene0": 0.31}
+            d = ham.build_measurement_intermediates(d, S["trial"], S["wd"])
+            S["_carry"] = dict(ham.build_propagation_intermediates(d, dprop, S["trial"], S["wd"]))
+            res.guard("carried_dictionary_rebuilds", 1)
+        hd = dict(S["_carry"])
+        hd.update({"h0": S["h0"], "h1": jnp.asarray(S["h1"]), "chol": jnp.asarray(S["chol"].reshape(nchol, n * n)), "ene0": ene0})
         hd = ham.build_measurement_intermediates(hd, S["trial"], S["wd"])
         hd = ham.build_propagation_intermediates(hd, prop, S["trial"], S["wd"])
+        S["_carry"] = dict(hd)
         walkers = [jnp.asarray(np.repeat(S["wa"][None], M, 0)), jnp.asarray(np.repeat(S["wb"][None], M, 0))]
         ov = gridmc.jitted(S["trial"], "calc_overlap")(walkers, S["wd"])
         pd = {"weights": jnp.ones(M), "walkers": walkers, "overlaps": ov, "normed_overlaps": ov, "norms": jnp.ones(M) + 0j,
@@ -191,7 +203,7 @@ def run(ctx):
     ctx.assume("quadrature/round-off floor 2e-9; the second-order ratio is required in the small-dt tail and only for n_exp_terms >= 6")
     ctx.pmap(job, configs(ctx.tier, ctx.seed), tasks_per_child=2)
     ctx.pmap(job_sampler, [dict(seed=ctx.seed, tier=ctx.tier, kind="sampler")], tasks_per_child=2)
-    ctx.require_guard("ladder_ratios_live", "taylor_remainder_checked", "fp_blocks_recomputed")
+    ctx.require_guard("ladder_ratios_live", "taylor_remainder_checked", "fp_blocks_recomputed", "carried_dictionary_rebuilds")
 
 
 def replay(case):
